@@ -16,8 +16,14 @@ def gen_prefix_indent(I, tag, maxlen):
     return Txt(chars)
 
 
-def gen_paragraph(I, kmax, wl=2, concrete=False):
-    """k words of 1..wl lowercase letters joined by single spaces"""
+# paragraph templates: concrete words, '?' = symbolic lowercase letter (6-8 words, so fills of 3-6 lines)
+PARA_TEMPLATES = ['th? quick br?wn fox jumps ov?r', 'a bb ccc ?ddd eeeee f?', 'lor?m ipsum dolor sit am?t consectetur']
+
+
+def gen_paragraph(I, kmax, wl=2, concrete=False, tmpl=None):
+    """k words of 1..wl lowercase letters joined by single spaces (or a paragraph template)"""
+    if tmpl is not None:
+        return Txt([(I.sym_char('l%d' % k, 0x61, 0x7a), 1) if ch == '?' else (ord(ch), 1) for k, ch in enumerate(tmpl)])
     k = 1 + I.choose(kmax, 'nwords')
     chars = []
     for w in range(k):
@@ -60,6 +66,11 @@ class C15(WrapHarness):
                     'trail': True, 'k': 3 if q else 4, 'imax': 1, 'wmax': 1 << 20, 'concrete_words': True})
         out.append({'mode': 'roundtrip', 'feat': 'full', 'algo': 'F', 'sep': 'A', 'split': 'N', 'bw': True, 'le': 'LF',
                     'trail': False, 'k': 3, 'imax': 1, 'wmax': 1 << 20, 'wide_enough': True})
+        for t in (PARA_TEMPLATES[:1] if q else PARA_TEMPLATES):
+            for algo in ('F', 'O'):
+                for le in (('LF',) if q else ('LF', 'CRLF')):
+                    out.append({'mode': 'roundtrip', 'feat': 'full', 'algo': algo, 'sep': 'A', 'split': 'H', 'bw': False,
+                                'le': le, 'trail': le == 'LF', 'k': 0, 'imax': 1 if q else 2, 'wmax': 1 << 16, 'ptmpl': t})
         out.append({'mode': 'structural', 'feat': 'full', 'gen': 'sym1', 'n': 4 if q else 5})
         out.append({'mode': 'structural', 'feat': 'full', 'gen': 'alpha', 'n': 5 if q else 6,
                     'alphabet': ['a', ' ', '\n', '\r', '-', '>', '你']})
@@ -82,7 +93,7 @@ class C15(WrapHarness):
             out = unfill_neutral(I.run('unfill', [to_str(t)]))
             self.oracle(I, cfg, I.inputs, out)
             return out
-        para = gen_paragraph(I, cfg['k'], concrete=cfg.get('concrete_words', False))
+        para = gen_paragraph(I, cfg['k'], concrete=cfg.get('concrete_words', False), tmpl=cfg.get('ptmpl'))
         ii = gen_prefix_indent(I, 'i', cfg['imax'])
         si = gen_prefix_indent(I, 's', cfg['imax'])
         W = I.sym_int('W', 0, cfg['wmax'])
